@@ -384,15 +384,15 @@ def run(ctx):
     ctx.units("corpus", unit_corpus, [{}])
     ctx.units("scaling-families", unit_scaling, [{"bases": [20, 125] if q else [20, 125, 500]}])
     units = []
-    for kind, n in (("noisy", 600 if q else 12000), ("model", 200 if q else 4000), ("unicode", 400 if q else 6000), ("soup", 400 if q else 6000)):
-        for i in range(2 if q else 16):
+    for kind, n in (("noisy", 1200 if q else 12000), ("model", 500 if q else 4000), ("unicode", 500 if q else 6000), ("soup", 500 if q else 6000)):
+        for i in range(8 if q else 16):
             units.append({"kind": kind, "n": n, "seed": ctx.seed, "shard": i})
     ctx.units("generated-texts", unit_texts, units, procs=16)
-    hu = [{"kind": "pool", "shard": i, "nshards": 8} for i in range(8)] + [{"kind": "sampled", "n": 100 if q else 1500, "seed": ctx.seed, "shard": i} for i in range(4 if q else 16)]
+    hu = [{"kind": "pool", "shard": i, "nshards": 8} for i in range(8)] + [{"kind": "sampled", "n": 150 if q else 1500, "seed": ctx.seed, "shard": i} for i in range(8 if q else 16)]
     ctx.units("histories-one-parser-one-stream", unit_histories, hu, procs=16)
     fz = []
-    for i in range(2 if q else 16):
-        fz.append({"runs": 4000 if q else 150000, "seed": ctx.seed * 100, "shard": i, "mode": "structured" if i % 2 else "text", "seed_corpus": i % 4 >= 2})
+    for i in range(8 if q else 16):
+        fz.append({"runs": 10000 if q else 150000, "seed": ctx.seed * 100, "shard": i, "mode": "structured" if i % 2 else "text", "seed_corpus": i % 4 >= 2})
     ctx.units("atheris-coverage-guided", unit_atheris, fz, procs=16)
     st_ = ctx.subs.get("generated-texts")
     if st_ is not None:
